@@ -560,6 +560,20 @@ seperatorrune: 59
 
 func (sc *Scenario) noneStr() string { return fmtG(sc.Weather.NoneValue) }
 
+func (sc *Scenario) globStr(d WeatherDay) string {
+	if d.NoneGlob {
+		return sc.noneStr()
+	}
+	return f2(d.Glob)
+}
+
+func (sc *Scenario) precipStr(d WeatherDay) string {
+	if d.NonePrecip {
+		return sc.noneStr()
+	}
+	return f1(d.Precip)
+}
+
 func f1(x float64) string { return strconv.FormatFloat(x, 'f', 1, 64) }
 func f2(x float64) string { return strconv.FormatFloat(x, 'f', 2, 64) }
 
@@ -593,7 +607,7 @@ func (sc *Scenario) writeWeather(dir string) error {
 					verd = sc.noneStr()
 				}
 				et0 := f1(d.ET0)
-				fmt.Fprintf(&b, "%s;%s;%s;%s;%s;%s;%s;%s;%s;%s;%d\n", tavg, f1(d.Tmin), f1(d.Tmax), et0, f1(d.RH), verd, f1(d.Wind), sun, f2(d.Glob), f1(d.Precip), d.D.DOY())
+				fmt.Fprintf(&b, "%s;%s;%s;%s;%s;%s;%s;%s;%s;%s;%d\n", tavg, f1(d.Tmin), f1(d.Tmax), et0, f1(d.RH), verd, f1(d.Wind), sun, sc.globStr(d), sc.precipStr(d), d.D.DOY())
 			}
 			name := "MET_" + w.Code + "." + yearExt(y)
 			if err := os.WriteFile(filepath.Join(dir, name), []byte(b.String()), 0644); err != nil {
@@ -618,7 +632,7 @@ func (sc *Scenario) writeWeather(dir string) error {
 			if d.NoneTavg {
 				tavg = sc.noneStr()
 			}
-			fmt.Fprintf(&b, "%s,%s,%s,%s,%s,%s,%s,%s", d.D.String(), f1(d.Tmin), tavg, f1(d.Tmax), f1(d.Precip), f2(d.Glob), f1(d.Wind), f1(d.RH))
+			fmt.Fprintf(&b, "%s,%s,%s,%s,%s,%s,%s,%s", d.D.String(), f1(d.Tmin), tavg, f1(d.Tmax), sc.precipStr(d), sc.globStr(d), f1(d.Wind), f1(d.RH))
 			if w.HasSun {
 				if d.NoneSun {
 					b.WriteString("," + sc.noneStr())
@@ -653,7 +667,7 @@ func (sc *Scenario) writeWeather(dir string) error {
 			b.WriteString("# header line\n")
 		}
 		for _, d := range w.Days {
-			fmt.Fprintf(&b, " %04d%03d %7s %7s %7s %7s %7s %7s", d.D.Y, d.D.DOY(), f1(d.Tmin), f1(d.Tmax), f2(d.Glob), f1(d.Precip), f1(d.Wind), f1(d.RH))
+			fmt.Fprintf(&b, " %04d%03d %7s %7s %7s %7s %7s %7s", d.D.Y, d.D.DOY(), f1(d.Tmin), f1(d.Tmax), sc.globStr(d), sc.precipStr(d), f1(d.Wind), f1(d.RH))
 			if w.HasSun {
 				if d.NoneSun {
 					fmt.Fprintf(&b, " %7s", sc.noneStr())
